@@ -3,23 +3,31 @@
     Transcribes every trait impl of [ProgressBarIter<T>] in /repo/src/iter.rs
     (Iterator 117-135, ExactSizeIterator 137-141, DoubleEndedIterator 143-155,
     io::Read 159-183, io::BufRead 185-194, io::Seek 196-208, tokio AsyncWrite
-    210-233, AsyncRead 235-251, AsyncSeek 253-268, AsyncBufRead 270-284,
-    futures Stream 286-304, io::Write 306-328) and the rayon plumbing wrappers of
-    /repo/src/rayon.rs (IndexedParallelIterator 48-87, ProgressProducer 89-126,
-    ProgressProducerIter 130-165, ProgressConsumer 167-212, ProgressFolder
-    214-237, ParallelIterator 239-246) over an ARBITRARY inner object: the inner
-    object is a record of step functions over an abstract state type [S]; all
-    of its nondeterminism (short transfers, errors, Pending, what it writes into
-    the caller's buffers) is whatever those functions return.
+    212-233 (+ tokio's default poll_write_vectored / is_write_vectored, which the
+    impl does not override), AsyncRead 237-251, AsyncSeek 255-268, AsyncBufRead
+    272-284, futures Stream 288-304 (+ futures' default size_hint), io::Write
+    306-328) and the rayon plumbing wrappers of /repo/src/rayon.rs
+    (IndexedParallelIterator 48-87, ProgressProducer 89-126, ProgressProducerIter
+    130-165, ProgressConsumer 167-212, ProgressFolder 214-237, ParallelIterator
+    239-246) over an ARBITRARY inner object: the inner object is a record of step
+    functions over an abstract state type [S]; all of its nondeterminism (short
+    transfers, errors, Pending, what it writes into the caller's buffers) is
+    whatever those functions return.
+
+    The model is parameterised by a [variant]: which of the four candidate repairs
+    docs/patches/C17-*.diff the modelled tree contains.  [current_code] (all off) is
+    /repo HEAD; [patched_code] (all on) is HEAD + the four patches.
 
     The bar side is the part of BarState the adaptors touch and the getters
     position()/is_finished()/message()/length() read:
-    ProgressBar::inc (progress_bar.rs:233-239) -> AtomicPosition::inc
-    (state.rs: fetch_add, wrapping), set_position (progress_bar.rs:285-291),
-    is_finished (progress_bar.rs:256-258, state.rs:272-278), finish_using_style
-    (progress_bar.rs:401-405, state.rs:43-72).  Drawing is not modelled (C01-C03).
+    ProgressBar::inc (progress_bar.rs:243-249) -> AtomicPosition::inc
+    (state.rs:598-604: fetch_add, wrapping), set_position (progress_bar.rs:295-301,
+    state.rs:606-608), is_finished (progress_bar.rs:266-268, state.rs:277-283),
+    finish_using_style (progress_bar.rs:416-422, state.rs:43-72).  Drawing is not
+    modelled (C01-C03).
 
-    Definitions only; proofs are in proofs/AdaptorsProofs.v. *)
+    Definitions only (including the vocabulary of the statements in props/C17.v);
+    proofs are in proofs/AdaptorsProofs.v. *)
 From IndModel Require Export Base.
 
 (* ------------------------------------------------------------------ *)
@@ -52,7 +60,7 @@ Definition bar_set_position (b : bar) (p : N) : bar :=
   {| b_pos := p; b_len := b_len b; b_status := b_status b;
      b_msg := b_msg b; b_on_finish := b_on_finish b |}.
 
-(* ProgressState::is_finished, state.rs:272-278 *)
+(* ProgressState::is_finished, state.rs:277-283 *)
 Definition bar_is_finished (b : bar) : bool :=
   match b_status b with InProgress => false | DoneVisible => true | DoneHidden => true end.
 
@@ -77,10 +85,10 @@ Definition bar_finish (b : bar) (f : finish) : bar :=
          b_msg := m; b_on_finish := b_on_finish b |}
   end.
 
-(* ProgressBar::finish_using_style, progress_bar.rs:401-405: clones on_finish *)
+(* ProgressBar::finish_using_style, progress_bar.rs:416-422: clones on_finish *)
 Definition bar_finish_using_style (b : bar) : bar := bar_finish b (b_on_finish b).
 
-(* ProgressBar::reset -> BarState::reset(Reset::All), state.rs:74-93 (fields above only) *)
+(* ProgressBar::reset (progress_bar.rs:366-368) -> BarState::reset(Reset::All), state.rs:74-98 (fields above only) *)
 Definition bar_reset (b : bar) : bar :=
   {| b_pos := 0; b_len := b_len b; b_status := InProgress;
      b_msg := b_msg b; b_on_finish := b_on_finish b |}.
@@ -97,6 +105,32 @@ Arguments Ready {A} a.
 Arguments Pending {A}.
 
 Inductive seek_from := SeekStart (n : N) | SeekEnd (z : Z) | SeekCurrent (z : Z).
+
+(* ------------------------------------------------------------------ *)
+(** * Which tree is modelled                                           *)
+(** One flag per candidate repair (docs/patches/C17-<name>.diff, each a minimal patch against
+    /repo HEAD).  A flag that is [false] transcribes HEAD, [true] transcribes HEAD + that patch. *)
+Record variant := {
+  v_stream_size_hint : bool;       (* C17-stream-size-hint.diff: Stream::size_hint is forwarded *)
+  v_stream_end_guard : bool;       (* C17-stream-end-guard.diff: Ready(None) finishes only an unfinished bar *)
+  v_poll_read_saturating : bool;   (* C17-poll-read-saturating.diff: filled - prev_len is a saturating_sub *)
+  v_async_write_vectored : bool    (* C17-async-write-vectored.diff: poll_write_vectored / is_write_vectored forwarded *)
+}.
+Definition current_code : variant :=
+  {| v_stream_size_hint := false; v_stream_end_guard := false;
+     v_poll_read_saturating := false; v_async_write_vectored := false |}.
+Definition patched_code : variant :=
+  {| v_stream_size_hint := true; v_stream_end_guard := true;
+     v_poll_read_saturating := true; v_async_write_vectored := true |}.
+
+(** What the model has to know about the abstract [Data] moved through write buffers: tokio's
+    DEFAULT poll_write_vectored picks the first non-empty slice, or the empty slice. *)
+Record buffers (Data : Type) : Type := {
+  buf_empty : Data;                 (* &[][..] *)
+  buf_is_empty : Data -> bool       (* <[u8]>::is_empty *)
+}.
+Arguments buf_empty {Data} _.
+Arguments buf_is_empty {Data} _ _.
 
 (* ------------------------------------------------------------------ *)
 (** * The inner object: an arbitrary state machine                     *)
@@ -128,6 +162,8 @@ Record inner (S E Item Data : Type) : Type := {
   i_flush : S -> S * io_result E unit;
   (* tokio AsyncWrite *)
   i_poll_write : S -> Data -> S * poll (io_result E N);
+  i_poll_write_vectored : S -> list Data -> S * poll (io_result E N);
+  i_is_write_vectored : S -> bool;
   i_poll_flush : S -> S * poll (io_result E unit);
   i_poll_shutdown : S -> S * poll (io_result E unit);
   (* tokio AsyncRead: arguments = buf.filled().len(), buf.capacity();
@@ -159,6 +195,8 @@ Arguments i_write {S E Item Data} _ _ _.
 Arguments i_write_vectored {S E Item Data} _ _ _.
 Arguments i_flush {S E Item Data} _ _.
 Arguments i_poll_write {S E Item Data} _ _ _.
+Arguments i_poll_write_vectored {S E Item Data} _ _ _.
+Arguments i_is_write_vectored {S E Item Data} _ _.
 Arguments i_poll_flush {S E Item Data} _ _.
 Arguments i_poll_shutdown {S E Item Data} _ _.
 Arguments i_poll_read {S E Item Data} _ _ _ _.
@@ -174,6 +212,8 @@ Arguments i_stream_size_hint {S E Item Data} _ _.
 Section Wrappers.
   Variables S E Item Data : Type.
   Variable I : inner S E Item Data.
+  Variable V : variant.
+  Variable B : buffers Data.
 
   (** ProgressBarIter { it, progress }: the inner object and (a handle on) the bar *)
   Definition W : Type := (S * bar)%type.
@@ -293,6 +333,32 @@ Section Wrappers.
     | Pending => ((s', b), Pending)
     end.
 
+  (* tokio-1.x src/io/async_write.rs:152-162, the DEFAULT body of poll_write_vectored:
+     bufs.iter().find(|b| !b.is_empty()).map_or(&[][..], |b| &**b) *)
+  Definition first_nonempty (ds : list Data) : Data :=
+    match find (fun d => negb (buf_is_empty B d)) ds with
+    | Some d => d
+    | None => buf_empty B
+    end.
+
+  (* HEAD: the impl at iter.rs:212-233 overrides neither poll_write_vectored nor is_write_vectored,
+     so tokio's defaults run ON THE ADAPTOR: poll_write(first non-empty slice) resp. false - the inner
+     object's own poll_write_vectored / is_write_vectored are never called.
+     With C17-async-write-vectored.diff: both forwarded, Ready(Ok(n)) counted like poll_write. *)
+  Definition w_poll_write_vectored (w : W) (ds : list Data) : W * poll (io_result E N) :=
+    if v_async_write_vectored V then
+      let '(s, b) := w in
+      let '(s', r) := i_poll_write_vectored I s ds in
+      match r with
+      | Ready (IoOk inc) => ((s', bar_inc b inc), Ready (IoOk inc))
+      | Ready (IoErr e) => ((s', b), Ready (IoErr e))
+      | Pending => ((s', b), Pending)
+      end
+    else w_poll_write w (first_nonempty ds).
+
+  Definition w_is_write_vectored (w : W) : bool :=
+    if v_async_write_vectored V then i_is_write_vectored I (fst w) else false.
+
   Definition w_poll_flush (w : W) : W * poll (io_result E unit) :=
     let '(s, b) := w in
     let '(s', r) := i_poll_flush I s in ((s', b), r).
@@ -301,10 +367,12 @@ Section Wrappers.
     let '(s, b) := w in
     let '(s', r) := i_poll_shutdown I s in ((s', b), r).
 
-  (* impl tokio AsyncRead: poll_read, iter.rs:238-250.  `buf.filled().len() as u64 - prev_len` is a checked
-     subtraction in the builds the harness uses (overflow-checks on): an inner object that
-     SHRINKS the filled region makes it panic (release builds wrap).  Ready(Err) counts the
-     bytes filled before the error as well. *)
+  (* impl tokio AsyncRead: poll_read, iter.rs:238-250.
+     HEAD: `buf.filled().len() as u64 - prev_len` is a checked subtraction in builds with
+     overflow checks (the harness's profile): an inner object that SHRINKS the filled region
+     makes it panic (builds without overflow checks wrap: the position moves BACK; not modelled).
+     With C17-poll-read-saturating.diff: saturating_sub (N subtraction truncates at 0), in every
+     build mode.  Ready(Err) counts the bytes filled before the error as well. *)
   Definition w_poll_read (w : W) (filled cap : N)
     : outcome (W * (Data * N * poll (io_result E unit))) :=
     let '(s, b) := w in
@@ -312,7 +380,7 @@ Section Wrappers.
     let '(s', (d, filled', r)) := i_poll_read I s filled cap in
     match r with
     | Ready e =>
-        if filled' <? prev_len then Panic 1
+        if negb (v_poll_read_saturating V) && (filled' <? prev_len) then Panic 1
         else Ok ((s', bar_inc b (filled' - prev_len)), (d, filled', Ready e))
     | Pending => Ok ((s', b), (d, filled', Pending))
     end.
@@ -340,20 +408,24 @@ Section Wrappers.
     let '(s, b) := w in
     (i_aconsume I s amt, bar_inc b amt).
 
-  (* impl futures_core::Stream: poll_next, iter.rs:291-303 – NOTE: unlike Iterator::next there is no
-     `!is_finished()` test: every Ready(None) runs finish_using_style again. *)
+  (* impl futures_core::Stream: poll_next, iter.rs:291-303.
+     HEAD: unlike Iterator::next there is no `!is_finished()` test: every Ready(None) runs
+     finish_using_style again.  With C17-stream-end-guard.diff: the same guard as Iterator::next. *)
   Definition w_poll_next (w : W) : W * poll (option Item) :=
     let '(s, b) := w in
     let '(s', item) := i_poll_next I s in
     let b' := match item with
               | Ready (Some _) => bar_inc b 1
-              | Ready None => bar_finish_using_style b
+              | Ready None => if v_stream_end_guard V && bar_is_finished b then b
+                              else bar_finish_using_style b
               | Pending => b
               end in
     ((s', b'), item).
 
-  (* Stream::size_hint is NOT overridden: futures_core's default *)
-  Definition w_stream_size_hint (w : W) : N * option N := (0, None).
+  (* HEAD: Stream::size_hint is NOT overridden: futures_core's default (stream.rs:105-107).
+     With C17-stream-size-hint.diff: forwarded like Iterator::size_hint. *)
+  Definition w_stream_size_hint (w : W) : N * option N :=
+    if v_stream_size_hint V then i_stream_size_hint I (fst w) else (0, None).
 
   (** ** One type for "a call on the adaptor" / "the same call on the bare object" *)
   Inductive call :=
@@ -362,7 +434,8 @@ Section Wrappers.
   | CFillBuf | CConsume (amt : N)
   | CSeek (f : seek_from) | CStreamPosition
   | CWrite (d : Data) | CWriteVectored (ds : list Data) | CFlush
-  | CPollWrite (d : Data) | CPollFlush | CPollShutdown
+  | CPollWrite (d : Data) | CPollWriteVectored (ds : list Data) | CIsWriteVectored
+  | CPollFlush | CPollShutdown
   | CPollRead (filled cap : N)
   | CStartSeek (f : seek_from) | CPollComplete
   | CPollFillBuf | CAConsume (amt : N)
@@ -372,6 +445,7 @@ Section Wrappers.
   | RItem (o : option Item)
   | RHint (h : N * option N)
   | RLen (n : N)
+  | RBool (x : bool)                               (* is_write_vectored *)
   | RCount (d : Data) (r : io_result E N)          (* read-like: data put in the buffer, result *)
   | RExact (d : Data) (r : io_result E unit)
   | RSlice (r : io_result E Data)
@@ -403,6 +477,8 @@ Section Wrappers.
     | CWriteVectored ds => let '(s', r) := i_write_vectored I s ds in (s', RNum r)
     | CFlush => let '(s', r) := i_flush I s in (s', RDone r)
     | CPollWrite d => let '(s', r) := i_poll_write I s d in (s', RPollNum r)
+    | CPollWriteVectored ds => let '(s', r) := i_poll_write_vectored I s ds in (s', RPollNum r)
+    | CIsWriteVectored => (s, RBool (i_is_write_vectored I s))
     | CPollFlush => let '(s', r) := i_poll_flush I s in (s', RPollDone r)
     | CPollShutdown => let '(s', r) := i_poll_shutdown I s in (s', RPollDone r)
     | CPollRead f cap => let '(s', (d, f', r)) := i_poll_read I s f cap in (s', RPollRead d f' r)
@@ -433,6 +509,8 @@ Section Wrappers.
     | CWriteVectored ds => let '(w', r) := w_write_vectored w ds in Ok (w', RNum r)
     | CFlush => let '(w', r) := w_flush w in Ok (w', RDone r)
     | CPollWrite d => let '(w', r) := w_poll_write w d in Ok (w', RPollNum r)
+    | CPollWriteVectored ds => let '(w', r) := w_poll_write_vectored w ds in Ok (w', RPollNum r)
+    | CIsWriteVectored => Ok (w, RBool (w_is_write_vectored w))
     | CPollFlush => let '(w', r) := w_poll_flush w in Ok (w', RPollDone r)
     | CPollShutdown => let '(w', r) := w_poll_shutdown w in Ok (w', RPollDone r)
     | CPollRead f cap =>
@@ -448,50 +526,93 @@ Section Wrappers.
     | CStreamSizeHint => Ok (w, RHint (w_stream_size_hint w))
     end.
 
-  (** ** Specification side: what a (call, result) pair of the BARE object must do to the bar.
-      Written from the property text, not from the code. *)
+  (** ** Specification side: what a (call, result) pair of the BARE object must do to the bar
+      according to the PROPERTY TEXT ("the position advances by exactly the number of items or
+      bytes actually transferred (a seek sets it to the new offset), and exhausting an iterator
+      finishes the bar according to its finish behaviour").  It does not mention [V]: where a
+      variant of the code departs from it, [known_dev] below names the class and props/C17.v has a
+      [_refuted] theorem.  Three readings of the text are built in; they are listed, with reasons,
+      under "Interpretations" in docs/C17.md:
+      I1 read_exact returning Err: the std contract leaves the number of bytes read unspecified and
+         the call does not report it, so no wrapper can observe it: nothing is counted;
+      I2 poll_read returning Pending: by tokio's contract no data was transferred: nothing is counted;
+         on Ready - Ok or Err - the growth of the filled region is what reached the caller's buffer
+         (a region that shrank transferred nothing: N subtraction truncates at 0);
+      I3 consume(amt): the caller declares amt bytes of the lent slice as taken (BufRead's contract
+         obliges the caller to keep amt within that slice): amt is counted. *)
   Inductive effect :=
   | EAdd (n : N)            (* n items / bytes were transferred *)
   | ESet (p : N)            (* a seek arrived at offset p *)
-  | EExhausted              (* a blocking iterator reported exhaustion *)
-  | EStreamEnd              (* a stream reported its end *)
+  | EExhausted              (* an iterator (blocking or Stream) reported exhaustion *)
   | ENothing.
 
   Definition effect_of (c : call) (r : ret) : effect :=
     match c, r with
     | (CNext | CNextBack), RItem (Some _) => EAdd 1
     | (CNext | CNextBack), RItem None => EExhausted
+    | CPollNext, RPollItem (Ready (Some _)) => EAdd 1
+    | CPollNext, RPollItem (Ready None) => EExhausted
     | (CRead _ | CReadVectored _ | CReadToString), RCount _ (IoOk n) => EAdd n
     | CReadExact n, RExact _ (IoOk _) => EAdd n
     | (CConsume amt | CAConsume amt), _ => EAdd amt
     | (CWrite _ | CWriteVectored _), RNum (IoOk n) => EAdd n
-    | CSeek _, RNum (IoOk p) => ESet p
-    | CPollWrite _, RPollNum (Ready (IoOk n)) => EAdd n
+    | (CPollWrite _ | CPollWriteVectored _), RPollNum (Ready (IoOk n)) => EAdd n
     | CPollRead f _, RPollRead _ f' (Ready _) => EAdd (f' - f)
+    | CSeek _, RNum (IoOk p) => ESet p
     | CPollComplete, RPollNum (Ready (IoOk p)) => ESet p
-    | CPollNext, RPollItem (Ready (Some _)) => EAdd 1
-    | CPollNext, RPollItem (Ready None) => EStreamEnd
     | _, _ => ENothing
     end.
 
+  (** "finishes the bar according to its finish behaviour": a bar that is already finished
+      (by the user, or by an earlier exhaustion) has nothing left to finish *)
   Definition apply_effect (b : bar) (e : effect) : bar :=
     match e with
     | EAdd n => bar_inc b n
     | ESet p => bar_set_position b p
     | EExhausted => if bar_is_finished b then b else bar_finish_using_style b
-    | EStreamEnd => bar_finish_using_style b
     | ENothing => b
     end.
 
-  (** calls whose result the adaptor does not take from the inner object *)
-  Definition not_forwarded (c : call) : bool :=
-    match c with CStreamSizeHint => true | _ => false end.
+  (** THE PROPERTY FOR ONE CALL: same new inner state and same result as the bare call, bar =
+      prescribed effect of that result, no panic *)
+  Definition meets_spec (s : S) (b : bar) (c : call) : Prop :=
+    wrap_step (s, b) c =
+      (let '(s', r) := bare_step s c in Ok ((s', apply_effect b (effect_of c r)), r)).
 
-  (** the inner object honours the ReadBuf contract on this call: the filled region does not shrink *)
-  Definition readbuf_ok (c : call) (r : ret) : bool :=
+  Definition hint_is_default (h : N * option N) : bool :=
+    match h with (0, None) => true | _ => false end.
+
+  (** The decidable classes (predicates on the bar before the call, the call and what the BARE
+      object returned) in which variant [V] of the code is known to miss [meets_spec]: one per
+      missing patch.  Empty for [patched_code]. *)
+  Definition known_dev (b : bar) (c : call) (r : ret) : bool :=
     match c, r with
-    | CPollRead f _, RPollRead _ f' (Ready _) => f <=? f'
-    | _, _ => true
+    | CStreamSizeHint, RHint h =>                 (* D-a stream-size-hint-not-forwarded *)
+        negb (v_stream_size_hint V) && negb (hint_is_default h)
+    | CPollNext, RPollItem (Ready None) =>        (* D-b stream-end-refinishes-finished-bar *)
+        negb (v_stream_end_guard V) && bar_is_finished b
+    | CPollRead f _, RPollRead _ f' (Ready _) =>  (* D-c poll-read-filled-shrunk-underflow *)
+        negb (v_poll_read_saturating V) && (f' <? f)
+    | CPollWriteVectored _, _ =>                  (* D-d async-write-vectored-not-forwarded *)
+        negb (v_async_write_vectored V)
+    | CIsWriteVectored, RBool x =>
+        negb (v_async_write_vectored V) && x
+    | _, _ => false
+    end.
+
+  (** the shapes of the results a bare call can produce *)
+  Definition ret_is_err (r : ret) : bool :=
+    match r with
+    | RCount _ (IoErr _) | RExact _ (IoErr _) | RSlice (IoErr _) | RNum (IoErr _)
+    | RDone (IoErr _) | RPollNum (Ready (IoErr _)) | RPollDone (Ready (IoErr _))
+    | RPollSlice (Ready (IoErr _)) => true
+    | _ => false
+    end.
+  Definition ret_is_pending (r : ret) : bool :=
+    match r with
+    | RPollNum Pending | RPollDone Pending | RPollRead _ _ Pending | RPollSlice Pending
+    | RPollItem Pending => true
+    | _ => false
     end.
 
   (** ** Callers: arbitrary adaptive programs over the calls (std's default methods –
@@ -523,11 +644,23 @@ Section Wrappers.
         end
     end.
 
-  Definition trace_ok (t : list (call * ret)) : bool :=
-    forallb (fun cr => negb (not_forwarded (fst cr)) && readbuf_ok (fst cr) (snd cr)) t.
+  (** no step of the (bare) trace, started with bar [b], falls into a [known_dev] class *)
+  Fixpoint trace_ok (b : bar) (t : list (call * ret)) : bool :=
+    match t with
+    | [] => true
+    | (c, r) :: t' =>
+        negb (known_dev b c r) && trace_ok (apply_effect b (effect_of c r)) t'
+    end.
 
   Definition bar_after (b : bar) (t : list (call * ret)) : bar :=
     fold_left (fun b cr => apply_effect b (effect_of (fst cr) (snd cr))) t b.
+
+  (** closed form of the position over a trace that only transfers (no seek, no end) *)
+  Definition eff (cr : call * ret) : effect := effect_of (fst cr) (snd cr).
+  Definition adds_only (t : list (call * ret)) : bool :=
+    forallb (fun cr => match eff cr with EAdd _ | ENothing => true | _ => false end) t.
+  Definition moved (t : list (call * ret)) : N :=
+    fold_right (fun cr a => match eff cr with EAdd n => n + a | _ => a end) 0 t.
 
 End Wrappers.
 
@@ -547,6 +680,8 @@ Arguments CWrite {Data} d.
 Arguments CWriteVectored {Data} ds.
 Arguments CFlush {Data}.
 Arguments CPollWrite {Data} d.
+Arguments CPollWriteVectored {Data} ds.
+Arguments CIsWriteVectored {Data}.
 Arguments CPollFlush {Data}.
 Arguments CPollShutdown {Data}.
 Arguments CPollRead {Data} filled cap.
@@ -559,6 +694,7 @@ Arguments CStreamSizeHint {Data}.
 Arguments RItem {E Item Data} o.
 Arguments RHint {E Item Data} h.
 Arguments RLen {E Item Data} n.
+Arguments RBool {E Item Data} x.
 Arguments RCount {E Item Data} d r.
 Arguments RExact {E Item Data} d r.
 Arguments RSlice {E Item Data} r.
@@ -572,6 +708,15 @@ Arguments RPollSlice {E Item Data} r.
 Arguments RPollItem {E Item Data} r.
 Arguments PDone {E Item Data}.
 Arguments PCall {E Item Data} c k.
+
+(** vocabulary of the finishing / counting statements *)
+Definition same_but_pos (b b' : bar) : Prop :=
+  b_len b' = b_len b /\ b_status b' = b_status b /\ b_msg b' = b_msg b
+  /\ b_on_finish b' = b_on_finish b.
+Definition finish_sets_pos (f : finish) : bool :=
+  match f with AndLeave | WithMessage _ | AndClear => true | _ => false end.
+Definition finish_message (f : finish) : option (list N) :=
+  match f with WithMessage m | AbandonWithMessage m => Some m | _ => None end.
 
 (* ------------------------------------------------------------------ *)
 (** * rayon: ProgressConsumer / ProgressFolder / ProgressProducer / ProgressProducerIter *)
@@ -693,6 +838,12 @@ Section Rayon.
 
   Definition count_some (os : list (option Item)) : nat :=
     length (filter (fun o => match o with Some _ => true | None => false end) os).
+
+  (** vocabulary of the rayon statements *)
+  Definition items_consumed (t : dtree) : nat :=
+    fold_right (fun items a => (length items + a)%nat) 0%nat (dleaves t).
+  Definition items_yielded (ls : list (It * list (option Item))) : nat :=
+    fold_right (fun l a => (count_some (snd l) + a)%nat) 0%nat ls.
 End Rayon.
 
 Arguments DLeaf {Item} items.
@@ -845,6 +996,11 @@ Definition sc_poll_write (s : sstate) (d : list N) : sstate * poll (io_result N 
   | _ => let '(s', r) := sc_write s d in (s', Ready r)
   end.
 
+(* a GENUINELY vectored async writer: takes bytes across all slices and leaves a tag in the
+   argument hash, so that "poll_write_vectored was called" differs from "poll_write was called" *)
+Definition sc_poll_write_vectored (s : sstate) (ds : list (list N)) : sstate * poll (io_result N N) :=
+  sc_poll_write (s_mix s 10) (concat ds).
+
 Definition sc_poll_done (s : sstate) : sstate * poll (io_result N unit) :=
   match fst (spop s) with
   | EvPend => (snd (spop s), Pending)
@@ -915,6 +1071,8 @@ Definition scripted : inner sstate N N (list N) := {|
   i_write_vectored := fun s ds => sc_write s (concat ds);
   i_flush := sc_done;
   i_poll_write := sc_poll_write;
+  i_poll_write_vectored := sc_poll_write_vectored;
+  i_is_write_vectored := fun s => N.even (s_ctr s);
   i_poll_flush := sc_poll_done;
   i_poll_shutdown := fun s => sc_poll_done (s_mix s 7);
   i_poll_read := sc_poll_read;
@@ -928,6 +1086,8 @@ Definition scripted : inner sstate N N (list N) := {|
 
 (* ------------------------------------------------------------------ *)
 (** * Correspondence cases *)
+Definition sbuf : buffers (list N) :=
+  {| buf_empty := []; buf_is_empty := fun d => match d with [] => true | _ => false end |}.
 Definition scall := call (list N).
 Definition sret := ret N N (list N).
 
@@ -970,6 +1130,7 @@ Definition sret_eqb (a b : sret) : bool :=
   | RItem x, RItem y => option_eqb N.eqb x y
   | RHint x, RHint y => hint_eqb x y
   | RLen x, RLen y => N.eqb x y
+  | RBool x, RBool y => Bool.eqb x y
   | RCount d r, RCount d' r' => lN_eqb d d' && io_eqb N.eqb r r'
   | RExact d r, RExact d' r' => lN_eqb d d' && io_eqb unit_eqb r r'
   | RSlice r, RSlice r' => io_eqb lN_eqb r r'
@@ -991,19 +1152,19 @@ Definition bar_obs_ok (b : bar) (p : N) (f : bool) : bool :=
   N.eqb (b_pos b) p && Bool.eqb (bar_is_finished b) f.
 
 (** replays the steps on the model; [None] as soon as an observation differs *)
-Fixpoint seq_run (w : sW) (steps : list (step * (obs * N * bool))) : option sW :=
+Fixpoint seq_run (V : variant) (w : sW) (steps : list (step * (obs * N * bool))) : option sW :=
   match steps with
   | [] => Some w
   | (SUser u, (o, p, f)) :: rest =>
       let w' := (fst w, user_step (snd w) u) in
       match o with
-      | ObsUser => if bar_obs_ok (snd w') p f then seq_run w' rest else None
+      | ObsUser => if bar_obs_ok (snd w') p f then seq_run V w' rest else None
       | _ => None
       end
   | (SCall c, (o, p, f)) :: rest =>
-      match wrap_step _ _ _ _ scripted w c, o with
+      match wrap_step _ _ _ _ scripted V sbuf w c, o with
       | Ok (w', r), ObsRet r' =>
-          if sret_eqb r r' && bar_obs_ok (snd w') p f then seq_run w' rest else None
+          if sret_eqb r r' && bar_obs_ok (snd w') p f then seq_run V w' rest else None
       | Panic _, ObsPanic =>
           (* the adaptor panicked before touching the bar; the case ends here *)
           match rest with [] => if bar_obs_ok (snd w) p f then Some w else None | _ => None end
@@ -1021,10 +1182,12 @@ Inductive c17case :=
 Definition bar0 (len : option N) (pos0 : N) (fin : finish) : bar :=
   {| b_pos := pos0; b_len := len; b_status := InProgress; b_msg := []; b_on_finish := fin |}.
 
-Definition adaptors_check (c : c17case) : bool :=
+(** [V] = which candidate patches the tree under test contains (chosen by the harness: the
+    constant REPO_HAS in harness/src/bin/c17.rs, printed into the header of every shard) *)
+Definition adaptors_check (V : variant) (c : c17case) : bool :=
   match c with
   | CaseSeq len pos0 fin script steps fmsg fsink fctr flen =>
-      match seq_run ({| s_evs := script; s_ctr := 0; s_sink := 0 |}, bar0 len pos0 fin) steps with
+      match seq_run V ({| s_evs := script; s_ctr := 0; s_sink := 0 |}, bar0 len pos0 fin) steps with
       | Some (s, b) =>
           lN_eqb (b_msg b) fmsg && N.eqb (s_sink s) fsink && N.eqb (s_ctr s) fctr
           && option_eqb N.eqb (b_len b) flen
